@@ -312,6 +312,8 @@ class Formatter(FormatterInterface):
         """Format a for loop over a range."""
         begin = self(r.begin)
         end = self(r.end)
+        if r.end.precedence >= L.PRECEDENCE.LT:
+            end = f"({end})"
         index = self(r.index)
         output = f"for (int {index} = {begin}; {index} < {end}; ++{index})\n"
         output += "{\n"
